@@ -32,7 +32,7 @@ func init() {
 			"Key ids: TokenKeyID() of type 1/2/3/5 issuers == SHA-256(reference serialization) and requests of types 1, 2, 5 carry byte 31 of it (keys whose id has different first and last bytes); type-3 requests carry SHA-256(reference EncapKey encoding) as name key id. " +
 			"Related keys in sequence: issuers over the same modulus with different exponents, keys whose hex(N)||hex(E) coincide decoded back to back in both forms, keys decoded from accepted encodings with other PSS parameters / trailing bytes must encode to the prescribed DER (and give its SHA-256 as key id), name keys decoded from encoding||trailing bytes. " +
 			"distinct_nontrivial = distinct (modulus byte length, top bit, exponent class) and (issuer type, key) keys",
-		Floors:      []string{"pss_der_equals_reference", "legacy_der_equals_reference", "unmarshal_inverts_pss", "unmarshal_inverts_legacy", "x509_accepts_legacy", "rust_pks_anchor", "key_id_type1", "key_id_type2", "key_id_type3", "key_id_type5", "truncated_key_id_last_byte", "name_key_id", "name_key_id_decoded_suites", "key_id_same_modulus_other_exponent", "related_keys_decoded_back_to_back", "decoded_key_encodes_to_prescribed_der", "modulus_containing_pem_block", "key_id_odd_size_moduli", "moduli_with_chosen_leading_octets", "moduli_containing_der_fragments", "earlier_encodings_unchanged"},
+		Floors:      []string{"pss_der_equals_reference", "legacy_der_equals_reference", "unmarshal_inverts_pss", "unmarshal_inverts_legacy", "x509_accepts_legacy", "rust_pks_anchor", "key_id_type1", "key_id_type2", "key_id_type3", "key_id_type5", "truncated_key_id_last_byte", "name_key_id", "name_key_id_decoded_suites", "key_id_same_modulus_other_exponent", "related_keys_decoded_back_to_back", "decoded_key_encodes_to_prescribed_der", "modulus_containing_pem_block", "key_id_odd_size_moduli", "moduli_with_chosen_leading_octets", "moduli_containing_der_fragments", "earlier_encodings_unchanged", "moduli_with_arithmetic_structure"},
 		Assumptions: []string{"encoding needs no factorisation: synthetic moduli are arbitrary positive integers", "go-hpke's X25519 key derivation and crypto/x509 are trusted"},
 		Run:         runC18,
 	})
@@ -254,6 +254,38 @@ func c18Related(c *core.Ctx, rk []*rsa.PrivateKey) {
 				body[len(body)-1] |= 1
 				c18Key(c, new(big.Int).SetBytes(body), []int{65537, 3}[size%2], fmt.Sprintf("syn:leading-octets-%x:%d", lead, size))
 				c.Class("moduli_with_chosen_leading_octets")
+			}
+		}
+		// moduli with arithmetic structure (a codec has no business looking at it): perfect squares and cubes of odd numbers,
+		// a prime, a product of small primes, 2^k +- 1, a repunit, an even number
+		{
+			odd := func(n int) *big.Int {
+				v := new(big.Int).SetBytes(r.Bytes(n))
+				v.SetBit(v, 0, 1)
+				v.SetBit(v, 8*n-1, 1)
+				return v
+			}
+			var structured []*big.Int
+			for _, n := range []int{32, 64, 128, 129} {
+				x := odd(n)
+				structured = append(structured, new(big.Int).Mul(x, x), new(big.Int).Exp(odd(n/2), big.NewInt(3), nil), new(big.Int).Exp(odd(n/4), big.NewInt(4), nil))
+			}
+			structured = append(structured, elliptic.P521().Params().P, elliptic.P384().Params().N)
+			sm := big.NewInt(1)
+			for _, q := range []int64{3, 5, 7, 11, 13, 17, 19, 23, 29, 31, 37, 41, 43, 47} {
+				for k := 0; k < 30; k++ {
+					sm.Mul(sm, big.NewInt(q))
+				}
+			}
+			structured = append(structured, sm)
+			for _, k := range []uint{512, 1024, 2047, 2048} {
+				p2 := new(big.Int).Lsh(big.NewInt(1), k)
+				structured = append(structured, new(big.Int).Add(p2, big.NewInt(1)), new(big.Int).Sub(p2, big.NewInt(1)), p2)
+			}
+			structured = append(structured, new(big.Int).SetBytes(bytes.Repeat([]byte{0x11}, 256)), new(big.Int).Lsh(odd(255), 8))
+			for si, n := range structured {
+				c18Key(c, n, []int{65537, 3}[si%2], fmt.Sprintf("syn:structured-modulus#%d", si))
+				c.Class("moduli_with_arithmetic_structure")
 			}
 		}
 		pa, ra := spkiAlgs()
